@@ -802,10 +802,15 @@ func (g *smtpGen) dialogue() smtpDialogue {
 		junk()
 	}
 	if !g.wrong() {
+		helo := "client.example"
+		if g.r.Intn(8) == 0 {
+			// a long HELO name makes the generated trace headers long (several hundred bytes)
+			helo = strings.Repeat("h", 300+g.r.Intn(400)) + ".example"
+		}
 		if g.r.Intn(2) == 0 {
-			add(caseMix(g.r, "HELO") + " client.example")
+			add(caseMix(g.r, "HELO") + " " + helo)
 		} else {
-			add(caseMix(g.r, "EHLO") + " client.example")
+			add(caseMix(g.r, "EHLO") + " " + helo)
 		}
 	}
 	if g.r.Intn(12) == 0 {
